@@ -5,14 +5,17 @@ import json, os, subprocess, sys, tempfile
 import xml.etree.ElementTree as ET
 
 base = json.load(open("/root/.vp/BASELINE.json"))
+repo = sys.argv[1] if len(sys.argv) > 1 else "/repo"
 env = dict(os.environ)
 env.pop("NCAS_CMS_CFDM_VERIF", None)
+if repo != "/repo":
+    env["PYTHONPATH"] = repo
 with tempfile.TemporaryDirectory() as d:
     xml = os.path.join(d, "r.xml")
     subprocess.run(
         ["/venv/bin/python", "-m", "pytest", "-ra", "-q", "-p", "no:cacheprovider", "--timeout=900",
          "--continue-on-collection-errors", f"--junitxml={xml}"],
-        cwd="/repo", env=env, stdout=subprocess.DEVNULL, stderr=subprocess.DEVNULL)
+        cwd=repo, env=env, stdout=subprocess.DEVNULL, stderr=subprocess.DEVNULL)
     passed = set()
     for tc in ET.parse(xml).getroot().iter("testcase"):
         if not any(ch.tag in ("failure", "error", "skipped") for ch in tc):
